@@ -94,7 +94,8 @@ reg("C04", exc_ops=WE_OPS, nontrivial=nt_we, hook="resolve", mc=[("core", 4, 5),
 reg("C05", exc_ops=set(), nontrivial=nt_we, hook="wepages", obs_fail=True,
     weights={"CreateWe": 12, "AddPrefix": 8, "MovePrefix": 5, "AddRule": 6},
     profile={"raw": 0.0, "long": 0.3, "nlrus": 12}, title="Webentity page sets")
-reg("C06", exc_ops=WRITE_OPS | RULE_OPS, nontrivial=nt_we, hook="potential", mc=[("core", 4, 5), ("we", 4, 5)],
+reg("C06", exc_ops=WRITE_OPS | RULE_OPS, nontrivial=nt_we, hook="potential",
+    mc=[("core", 4, 5), ("we", 4, 5), ("wesub", 0, 5)],
     gen_mc="we",
     weights={"AddRule": 12, "RemoveRule": 4, "AddPage": 25},
     profile={"raw": 0.0, "long": 0.15, "adversarial": 0.4}, title="Automatic creation")
@@ -246,6 +247,8 @@ def run_check(pid, tier, seed, work, t0):
     # 1. exhaustive model checking of the design
     mcs = []
     for name, ql, tl in cfg["mc"]:
+        if (ql, tl)[ti] == 0:
+            continue        # configuration used in the other tier only
         r = run_mc(name, work, level=(ql, tl)[ti])
         if not r["ok"]:
             raise Machinery("TLC reports an error in configuration %s of the specification itself:\n%s"
